@@ -115,6 +115,7 @@ pub fn check_ops(ops: &[Op]) -> CaseResult {
     let late = Memfs::new();
     let (mut ha, mut hb, mut hc, mut hl) = (Handles::default(), Handles::default(), Handles::default(), Handles::default());
     mark("ops", "[");
+    let mut any_partial = false;
     for (i, op) in ops.iter().enumerate() {
         mark_append(&format!("{},", serde_json::to_string(op).unwrap()));
         let a = apply_h(&direct, op, &mut ha);
@@ -139,6 +140,11 @@ pub fn check_ops(ops: &[Op]) -> CaseResult {
             ));
         }
         let partial = a.is_err() && matches!(op.name(), "chmod" | "chmod_b" | "chown" | "chown_b" | "copy" | "copy_b" | "remove_all");
+        if partial {
+            // how far a failing multi-entry call got depends on the per-instance traversal order: from here on
+            // the fourth (late upcast) instance, which is not compared step by step, may differ in such leftovers
+            any_partial = true;
+        }
         let (da, db, dc) = (direct.verif_dump(), match &wrapped {
             Vfs::Memfs(m) => m.verif_dump(),
             _ => unreachable!(),
@@ -167,17 +173,17 @@ pub fn check_ops(ops: &[Op]) -> CaseResult {
             }
         }
     }
-    // open handles flush when dropped: both instances drop theirs before the comparison
+    // upcast after the history, while write/append handles obtained before it are still open: the Vfs is the same
+    // filesystem, so what those handles flush afterwards (here: when dropped) arrives in it
+    let late = late.upcast();
     drop(hl);
     drop(ha);
-    // upcast after the history: indistinguishable from the direct instance, including its effect (none)
-    let late = late.upcast();
     let late_tree = match &late {
         Vfs::Memfs(m) => tree_from_dump(&m.verif_dump()),
         _ => unreachable!(),
     };
     let direct_tree = tree_from_dump(&direct.verif_dump());
-    if late_tree.cwd != direct_tree.cwd || late_tree.nodes.len() != direct_tree.nodes.len() {
+    if late_tree.cwd != direct_tree.cwd || late_tree.nodes.len() != direct_tree.nodes.len() || (!any_partial && late_tree != direct_tree) {
         return Err(Failure::new("upcast|has-an-effect", format!("after the history, upcast changed the instance: cwd {:?} vs {:?}, {} vs {} entries", late_tree.cwd, direct_tree.cwd, late_tree.nodes.len(), direct_tree.nodes.len())));
     }
     for op in [Op::Cwd, Op::Abs("rel/x".into()), Op::Abs("..".into()), Op::Exists(".".into()), Op::Mkfile("late-probe".into()), Op::Paths(".".into()), Op::AllPaths("/".into())] {
